@@ -150,10 +150,6 @@ def parseReset (t : List String) : Option State := do
   if pcf.1 < 0 then none
   let mut s : State := { now := now, seq := 1, std := arg t "std", blocked := listOf (dash (arg t "blocked")),
                          params := { fee := fee, tax := tax, ufee := ufee, pcfDenom := pcf.2, pcfAmt := pcf.1.toNat } }
-  for e in listOf (dash (arg t "sup0")) do
-    match e.splitOn ":" with
-    | [d, v] => s := { s with bank := { s.bank with supply := AMap.set s.bank.supply d (← v.toNat?) } }
-    | _ => none
   for e in listOf (dash (arg t "fund")) do
     match e.splitOn ":" with
     | [key, v] =>
